@@ -16,7 +16,7 @@ fn usage() -> ! {
 }
 
 /// properties whose cases run the interpreter inside the harness process: isolated in workers
-const IN_PROCESS: &[&str] = &["C03", "C05", "C19"];
+const IN_PROCESS: &[&str] = &["C03", "C05"];
 
 fn replay_here(cfg: &Cfg, p: &str) -> Result<i32, Harness> {
     let v: Violation = serde_json::from_str(&std::fs::read_to_string(p)?)?;
@@ -27,6 +27,7 @@ fn replay_here(cfg: &Cfg, p: &str) -> Result<i32, Harness> {
         "C06" => checks::c06::replay(cfg, &v)?,
         "C03" => checks::c03::replay(cfg, &v)?,
         "C05" => checks::c05::replay(cfg, &v)?,
+        "C19" => checks::c19::replay(cfg, &v)?,
         other => return Err(Harness(format!("no replay for {other}"))),
     };
     match got {
@@ -82,6 +83,7 @@ fn run() -> Result<i32, Harness> {
                 Some("C06") => checks::c06::check(&cfg),
                 Some("C03") => checks::c03::check(&cfg),
                 Some("C05") => checks::c05::check(&cfg),
+                Some("C19") => checks::c19::check(&cfg),
                 _ => usage(),
             }
         }
